@@ -1044,15 +1044,15 @@ void buildArgOps() {
                      auto f = [v, mode](vec3& p) { if (mode == 0) p = vec3(v); else if (mode == 1) { if (p.x > 0) p.y = v; } else p.z += v; };
                      if (k.run([&] { m = batch ? s.WarpBatch([f](VecView<vec3> vs) { for (auto& p : vs) f(p); }) : s.Warp(f); })) k.M(m);
                    }});
-  g_ops.push_back({"SetProperties", {{"numProp", 'i', 2}, {"out", 'd', 0.5}}, [](const std::vector<double>& a) { return a[0] > 200000; },
+  g_ops.push_back({"SetProperties", {{"numProp", 'i', 2}, {"out", 'd', 0.5}}, [](const std::vector<double>& a) { return a[0] > 2000; },
                    [](ArgCtx& k, const std::vector<double>& a) {
                      Manifold m; const Manifold& s = pickSubj(k.r); int np = toInt(a[0]); double v = a[1]; bool nullf = k.r.chance(0.2);
                      auto f = [np, v](double* o, vec3 p, const double*) { for (int i = 0; i < np && i < 4; i++) o[i] = i == 0 ? v : p.x; };
                      if (k.run([&] { m = nullf ? s.SetProperties(np, nullptr) : s.SetProperties(np, f); })) k.M(m);
                    }});
-  g_ops.push_back({"CalculateNormals", {{"normalIdx", 'i', 0}, {"minSharpAngle", 'd', 50}}, [](const std::vector<double>& a) { return a[0] > 200000; },
+  g_ops.push_back({"CalculateNormals", {{"normalIdx", 'i', 0}, {"minSharpAngle", 'd', 50}}, [](const std::vector<double>& a) { return a[0] > 2000; },
                    [](ArgCtx& k, const std::vector<double>& a) { Manifold m; const Manifold& s = pickSubj(k.r); if (k.run([&] { m = s.CalculateNormals(toInt(a[0]), a[1]); })) k.M(m); }});
-  g_ops.push_back({"CalculateCurvature", {{"gaussianIdx", 'i', 0}, {"meanIdx", 'i', 1}}, [](const std::vector<double>& a) { return a[0] > 200000 || a[1] > 200000; },
+  g_ops.push_back({"CalculateCurvature", {{"gaussianIdx", 'i', 0}, {"meanIdx", 'i', 1}}, [](const std::vector<double>& a) { return a[0] > 2000 || a[1] > 2000; },
                    [](ArgCtx& k, const std::vector<double>& a) { Manifold m; const Manifold& s = pickSubj(k.r); if (k.run([&] { m = s.CalculateCurvature(toInt(a[0]), toInt(a[1])); })) k.M(m); }});
   g_ops.push_back({"GetMeshGL", {{"normalIdx", 'i', -1}}, never,
                    [](ArgCtx& k, const std::vector<double>& a) {
